@@ -60,7 +60,7 @@ Print Assumptions C12_mapped_box_composes.
 
 (* abs_transform of every node = product of the ancestors' transforms down to the node ... *)
 Theorem C12_abs_transform_product : forall n pabs,
-  has_use_ts n = false -> has_simple_leaf n = false -> product_ok pabs (thread pabs n) = true.
+  has_use_ts n = false -> product_ok pabs (thread pabs n) = true.
 Proof. exact abs_transform_product_guarded. Qed.
 Print Assumptions C12_abs_transform_product.
 
@@ -71,13 +71,6 @@ Theorem C12_known_use_transform_twice_refuted :
   exists n, has_use_ts n = true /\ product_ok ts_identity (thread ts_identity n) = false.
 Proof. exact abs_transform_product_refuted. Qed.
 Print Assumptions C12_known_use_transform_twice_refuted.
-
-(* KNOWN class background_path_abs: the root background rectangle is a Path::new_simple leaf (abs = identity) inside
-   the group that carries the root viewBox transform. *)
-Theorem C12_known_background_path_abs_refuted :
-  exists n, has_simple_leaf n = true /\ has_use_ts n = false /\ product_ok ts_identity (thread ts_identity n) = false.
-Proof. exact background_path_abs_refuted. Qed.
-Print Assumptions C12_known_background_path_abs_refuted.
 
 (* KNOWN class stroke_box_skew: Path::new, branch with skew, strokes the transformed path with the untransformed stroke
    width.  For one segment under rotate(90) scale(s): the computed box does not contain the true stroke box when
@@ -120,6 +113,11 @@ Example C12_ex_group :
 Proof. vm_compute. repeat split. Qed.
 Example C12_ex_rotate : (* a rotation by 90 degrees: the mapped box is the rotated rectangle *)
   map_box (from_row 0 1 (-1) 0 0 0) (mkbox 0 0 10 20) = mkbox (-20) 0 0 10.
+Proof. vm_compute. reflexivity. Qed.
+(* structure/svg/background-color-with-viewbox.svg (5431e4e): the background rectangle is an ordinary leaf of the group
+   that carries the root viewBox transform *)
+Example C12_ex_background : product_ok ts_identity (thread ts_identity
+  (TGroup GK_Plain (from_translate 100 100) ts_identity [TLeaf; TLeaf])) = true.
 Proof. vm_compute. reflexivity. Qed.
 Example C12_ex_product : product_ok ts_identity (thread ts_identity
   (TGroup GK_Plain (from_translate 3 4) ts_identity [TGroup GK_Plain (from_scale 2 2) ts_identity [TLeaf]; TLeaf])) = true.
